@@ -54,12 +54,20 @@ pub proof fn lemma_skip_nl_suffix(b: Seq<u8>)
 pub open spec fn taken_within_first_line(b: Seq<u8>, rest: Seq<u8>) -> bool {
     exists|k: int| 1 <= k <= b.len() && no_nl(#[trigger] b.subrange(0, k)) && rest == skip_nl(b.subrange(k, b.len() as int))
 }
+// the whole input was one record: nothing but line terminators follows it
+pub open spec fn whole_input_taken(b: Seq<u8>) -> bool {
+    exists|k: int| 1 <= k <= b.len() && no_nl(#[trigger] b.subrange(0, k)) && skip_nl(b.subrange(k, b.len() as int)).len() == 0
+}
 // index just after the first line terminator of b (or b.len() if there is none)
 pub open spec fn line_end(b: Seq<u8>) -> int
     decreases b.len()
 {
     if b.len() == 0 { 0 } else if spec_is_newline(b[0]) { 1 } else { 1 + line_end(b.subrange(1, b.len() as int)) }
 }
+pub proof fn lemma_line_end_bounds(b: Seq<u8>)
+    ensures 0 <= line_end(b) <= b.len(), b.len() > 0 ==> line_end(b) >= 1,
+    decreases b.len()
+{ if b.len() > 0 && !spec_is_newline(b[0]) { lemma_line_end_bounds(b.subrange(1, b.len() as int)); } }
 pub proof fn lemma_line_end(b: Seq<u8>, p: int)
     requires 0 <= p <= b.len(), forall|j: int| 0 <= j < p ==> !spec_is_newline(#[trigger] b[j]), p < b.len() ==> spec_is_newline(b[p]),
     ensures line_end(b) == (if p < b.len() { p + 1 } else { p }),
